@@ -149,7 +149,14 @@ def r4(ctx):
     nx = ctx.body('<data::loading::Pipe as std::iter::Iterator>::next')
     rcv = [t for t in nx.calls(r'mpsc::Receiver::(recv|try_recv|recv_timeout|recv_deadline|try_iter|iter)$')]
     ok = len(rcv) == 1 and (rcv[0].callee_res() or '').endswith('Receiver::recv')
-    ctx.require(ok, nx, 'blocking-recv', 'threaded next() receives with the blocking rx.recv() (None only on disconnect)',
+    # the blocking iterators of the receiver are `recv().ok()` by definition: mpsc::IntoIter::next / mpsc::Iter::next
+    it_next = [t for t in nx.calls(r'mpsc::(IntoIter|Iter) as std::iter::Iterator>::next$|mpsc::(IntoIter|Iter)::next$')]
+    if not rcv and len(it_next) == 1:
+        okd = any(peel(v)[0] == 'call' and peel(v)[1] == it_next[0].callee_res() for v, bb in ret_values(nx))
+        ctx.require(okd, nx, 'blocking-recv', 'threaded next() is the blocking receiver iterator (recv().ok())', None, it_next[0].span)
+        ok = False
+        rcv = it_next
+    ctx.require(ok or bool(it_next), nx, 'blocking-recv', 'threaded next() receives with the blocking rx.recv() (None only on disconnect)',
                 'threaded next() receives with %s (a timeout or try_recv ends the iteration early and loses items)' % [
                     (t.callee_res() or '').rsplit('::', 1)[-1] for t in rcv], rcv[0].span if rcv else None)
     if ok:
@@ -167,11 +174,12 @@ def r4(ctx):
             elif v[0] == 'agg' and v[2].endswith('Option::None'):
                 good = any(nosite(tt) == r and n_ == {'Err'} for tt, n_ in variant_facts_at(nx, bb))
                 ctx.require(good, nx, 'recv-none', 'None is returned only when the channel is disconnected', None, nx.blocks[bb].term.span)
-    inn = [t for t in nx.calls(r'::next$')]
+    inn = [t for t in nx.calls(r'::next$') if t not in it_next]
     ctx.require(len(inn) == 1 and any(has(core(v), Pred(lambda u: u[0] == 'call' and u[1] == inn[0].callee_res())) for v, bb in ret_values(nx)), nx, 'unthreaded-next',
                 'unthreaded next() delegates to the inner iterator', None)
     # original sender dropped before returning: channel closes when the workers are done
-    sd = [t for t in n.terms('drop') if t.raw['ty'].startswith('std::sync::mpsc::SyncSender<')]
+    sd = [t for t in n.terms('drop') if t.raw['ty'].startswith('std::sync::mpsc::SyncSender<')] + \
+        [t for t in n.calls(r'mem::drop$') if t.args and t.args[0].place is not None and n.local_ty(t.args[0].place.local).startswith('std::sync::mpsc::SyncSender<')]
     chan = [t for t in n.calls(r'mpsc::sync_channel$')]
     ok = bool(sd) and len(chan) == 1 and all(cfg.must_pass(n, chan[0].bb, r, via_blocks=[t.bb for t in sd]) for r in n.returns)
     ctx.require(ok, n, 'sender-dropped', 'Pipe::new drops its own SyncSender, so the channel disconnects when the last worker exits',
